@@ -296,28 +296,30 @@ def Router.numKey (r : Router) (i : Nat) : Nat :=
   | some _ => r.sortVals.getD i 0
   | none => 0
 
+/-- `sort_routers`, the `sort_by` part: `none` = `Err` (400) -/
+def sortKeys (w : World) (ps : List Param) : Option (List Router) :=
+  match (getParam Http.sSortBy ps).map Matched.value with
+  | none => some w.routers
+  | some v =>
+    if v = sAddr then some w.routers
+    else if v = sSysName then some (isort (fun a b => bytesLe (a.textKey false) (b.textKey false)) w.routers)
+    else if v = sSysDesc then some (isort (fun a b => bytesLe (a.textKey true) (b.textKey true)) w.routers)
+    else match numericIdx v with
+      | some i => some (isort (fun a b => a.numKey i ≤ b.numKey i) w.routers)
+      | none => none
+
+/-- `sort_routers`, the `sort_order` part -/
+def applyOrder (ps : List Param) (ks : List Router) : Option (List Router) :=
+  match (getParam Http.sSortOrder ps).map Matched.value with
+  | none => some ks
+  | some o =>
+    if o = Http.sAsc then some ks
+    else if o = Http.sDesc then some ks.reverse
+    else none
+
 /-- `sort_routers`: `none` = `Err` (400) -/
 def sortRouters (w : World) (ps : List Param) : Option (List Router) :=
-  let sortBy := (getParam Http.sSortBy ps).map Matched.value
-  let keys : Option (List Router) :=
-    match sortBy with
-    | none => some w.routers
-    | some v =>
-      if v = sAddr then some w.routers
-      else if v = sSysName then some (isort (fun a b => bytesLe (a.textKey false) (b.textKey false)) w.routers)
-      else if v = sSysDesc then some (isort (fun a b => bytesLe (a.textKey true) (b.textKey true)) w.routers)
-      else match numericIdx v with
-        | some i => some (isort (fun a b => a.numKey i ≤ b.numKey i) w.routers)
-        | none => none
-  match keys with
-  | none => none
-  | some ks =>
-    match (getParam Http.sSortOrder ps).map Matched.value with
-    | none => some ks
-    | some o =>
-      if o = Http.sAsc then some ks
-      else if o = Http.sDesc then some ks.reverse
-      else none
+  (sortKeys w ps).bind (applyOrder ps)
 
 /-- `html_escape::encode_safe` on bytes (for lengths and character boundaries) -/
 def encB (s : Bytes) : Bytes := s.flatMap fun b =>
@@ -411,6 +413,12 @@ def process (v : Variant) (d : Http.Deps) (w : World) (raw dec : Bytes) (ps : Li
   orElse (listProc v w dec ps) fun _ =>
   ribProc d w raw dec ps
 
+/-- `extract_params` -/
+def queryParams (req : Http.Req) : List Param :=
+  match req.query with
+  | some q => Http.parseQuery q
+  | none => []
+
 def respond (v : Variant) (d : Http.Deps) (w : World) (req : Http.Req) : Out :=
   match req.method with
   | .other => .resp ⟨405, .text, []⟩
@@ -418,8 +426,7 @@ def respond (v : Variant) (d : Http.Deps) (w : World) (req : Http.Req) : Out :=
     let dec := Http.decodedPath req.path
     if dec = Http.sMetrics || dec = Http.sStatus then .resp ⟨200, .text, []⟩
     else
-      let ps := match req.query with | some q => Http.parseQuery q | none => []
-      match process v d w req.path dec ps with
+      match process v d w req.path dec (queryParams req) with
       | .none => .resp ⟨404, .text, []⟩
       | .resp r => .resp r
       | .panic s => .panic s
